@@ -42,6 +42,30 @@ def tree_scan_atomic():
     return bool(m) and "popInFlightMessage" not in m.group(1) and '"delete"' in m.group(1)
 
 
+def gen_fact(name):
+    """a `List String` fact of Gen/Life.lean (the Lean side proves which shapes are acceptable)"""
+    try:
+        txt = open(os.path.join(framework.LEAN, "Nsq", "Gen", "Life.lean")).read()
+    except OSError:
+        return None
+    m = re.search(r"def %s : List String := \[(.*?)\]\n" % name, txt, re.S)
+    return re.findall(r'"([^"]*)"', m.group(1)) if m else None
+
+
+def tree_push_atomic():
+    """F48: pushInFlightMessage inserts into the map and pushes the heap entry in one critical section
+    (Tie.Life.push_shape_known / treePushAtomic)"""
+    return (gen_fact("pushInflightCalls") == ["Lock", "Unlock", "Push", "Unlock"] and
+            gen_fact("startInflightCalls") == ["pushInFlightMessage"] and
+            gen_fact("touchPushCalls") == ["popInFlightMessage", "removeFromInFlightPQ", "pushInFlightMessage"])
+
+
+def tree_ans_lock():
+    """fixes/F27: REQ and TOUCH hold c.RLock (Tie.Life.answers_channel_lock_shape / treeAnsLock)"""
+    pre = ["call:c.exitMutex.RLock", "defer:RUnlock", "call:c.RLock", "defer:RUnlock", "call:c.popInFlightMessage"]
+    return (gen_fact("reqLockSeq") or [])[:5] == pre and (gen_fact("touchLockSeq") or [])[:5] == pre
+
+
 def fix_commit(ctx, key):
     for f in ctx.known_findings().get("fixed", []):
         if f.get("property") == ctx.prop and f.get("key") == key:
@@ -164,23 +188,34 @@ def replay_known(ctx, binp):
                           open(os.path.join(ROOT, "corpus", "C08", "known", "orphan_resurrect.sched")).read())
     topic_delete_replays(ctx, binp, res)
     sync_every_replays(ctx, binp, res)
-    rc, kv, out = run_sched(ctx, binp, "empty_races_req_survives", timeout=90)
-    res["empty_races_req_survives"] = kv or {"error": out[-300:]}
-    sched = open(os.path.join(ROOT, "corpus", "C08", "known", "empty_races_req_survives.sched")).read()
-    if not kv:
-        if rc == -9 or "test timed out" in out:
-            ctx.violation("daemon-hangs:empty_races_req_survives", "Empty racing a parked REQ did not finish", sched)
-        else:
-            ctx.broken_ties.append("replay empty_races_req_survives did not run (rc=%s)" % rc)
-    else:
+    # Empty racing an operation that holds a message outside every container (audit B17).  REQ / TOUCH: repaired by
+    # fixes/F27 (the answers hold c.RLock: Empty waits); the timeout scan's window is NOT covered by F27 (open finding).
+    ans_lock = tree_ans_lock()
+    for name, key, guarded in (("empty_races_req_survives", "empty-races-req-message-survives", True),
+                               ("empty_races_touch_survives", "empty-races-touch-message-survives", True),
+                               ("empty_races_scan_survives", "empty-races-timeout-scan-message-survives", False)):
+        rc, kv, out = run_sched(ctx, binp, name, timeout=90)
+        res[name] = kv or {"error": out[-300:]}
+        sched = open(os.path.join(ROOT, "corpus", "C08", "known", name + ".sched")).read()
+        if not kv:
+            if rc == -9 or "test timed out" in out:
+                ctx.violation("daemon-hangs:" + name, "Empty racing a parked operation did not finish", sched)
+            else:
+                ctx.broken_ties.append("replay %s did not run (rc=%s)" % (name, rc))
+            continue
         ctx.evaluations += 1
-        ctx.count_case("sched:empty_races_req_survives", nontrivial=True)
+        ctx.count_case("sched:" + name, nontrivial=True)
         obs = " ".join("%s=%s" % x for x in sorted(kv.items()))
+        waited = kv.get("empty_waited_for_req") == "true"
         if kv.get("empty") != "ok":
-            ctx.violation("daemon-hangs:empty_races_req_survives", obs, sched + "# observed: " + obs + "\n")
+            ctx.violation("daemon-hangs:" + name, obs, sched + "# observed: " + obs + "\n")
         elif kv.get("survived") == "true":
-            k = "empty-races-req-message-survives" + (":despite-lock" if kv.get("empty_waited_for_req") == "true" else "")
-            ctx.violation(k, "empty_races_req_survives: " + obs, sched + "# observed: " + obs + "\n")
+            # a tree whose facts say "the answers hold the channel lock" (or on which Empty did wait) must not let
+            # the message survive: a different key, so that the open finding of the unprotected tree does not swallow it
+            k = key + (":despite-lock" if (waited or (guarded and ans_lock)) else "")
+            ctx.violation(k, "%s: %s" % (name, obs), sched + "# observed: " + obs + "\n")
+        elif guarded and ans_lock and not waited:
+            ctx.broken_ties.append("replay %s: the facts say REQ/TOUCH hold c.RLock but Empty did not wait (%s)" % (name, obs))
     ctx.corr["hook_replays"] = res
 
 
@@ -475,11 +510,15 @@ def life_property_fails(last, op, impl, model):
     return None
 
 
-def micro_corr(ctx, binp, corr_broken, seed, n, steps, fixed, scan_atomic=False):
+def micro_corr(ctx, binp, corr_broken, seed, n, steps, fixed, scan_atomic=False, push_atomic=None, ans_lock=None):
+    push_atomic = tree_push_atomic() if push_atomic is None else push_atomic
+    ans_lock = tree_ans_lock() if ans_lock is None else ans_lock
     rc, out = ctx.run_cmd([binp, "-test.run", "^TestVerifE5MicroCorr$", "-test.count=1", "-test.timeout", "%ds" % deadline(ctx)],
                           timeout=deadline(ctx) + 30, env={"VERIF_SEED": seed, "VERIF_N": n, "VERIF_STEPS": steps,
                                             "VERIF_OUT": ctx.work, "VERIF_FIXED": 1 if fixed else 0,
-                                            "VERIF_SCANATOMIC": 1 if scan_atomic else 0})
+                                            "VERIF_SCANATOMIC": 1 if scan_atomic else 0,
+                                            "VERIF_PUSHATOMIC": 1 if push_atomic else 0,
+                                            "VERIF_ANSLOCK": 1 if ans_lock else 0})
     if rc != 0 and hung(ctx, rc, out, "TestVerifE5MicroCorr", seed, n, steps):
         corr_broken.append("micro harness hit its deadline")
         return
@@ -632,6 +671,13 @@ def run(ctx):
     ctx.notes.append("processInFlightQueue on this tree: %s → model parameter scanAtomic=%s"
                      % ("heap pop + map delete in one critical section" if scan_atomic else
                         "heap pop, then popInFlightMessage (two critical sections)", scan_atomic))
+    ctx.corr["tree_push_atomic_F48"] = tree_push_atomic()
+    ctx.corr["tree_answers_hold_channel_lock_F27"] = tree_ans_lock()
+    ctx.notes.append("micro-step model parameters of this tree: pushAtomic=%s (F48: map insert + heap push one critical "
+                     "section), ansLock=%s (fixes/F27: REQ/TOUCH hold c.RLock; %s)"
+                     % (tree_push_atomic(), tree_ans_lock(),
+                        "empty_discards_held_fixed in force" if tree_ans_lock() else
+                        "finding empty-races-req-message-survives open"))
     ctx.notes.append("removeFromInFlightPQ on this tree: %s → micro-step model parameter fixed=%s; theorem in force: %s"
                      % ("patched guard" if fixed else "`if msg.index == -1`", fixed,
                         "no_fault (all schedules)" if fixed else "no_fault_full_false + known finding F7"))
